@@ -638,7 +638,13 @@ func (s *c15Script) run(reads []int, pseq uint32, pn int) string {
 	if stopped != "" {
 		return stopped
 	}
-	// the constructed packet as the real code sees it (the round-trip oracle compares against this)
+	sum := c15Summary(p)
+	b := p.Bytes()
+	return sum + " B " + hexs(b) + " " + c15Decode(b, reads, pseq, pn)
+}
+
+// c15Summary renders the constructed packet as the real code sees it (the round-trip oracle compares against this).
+func c15Summary(p *packets.Packet) string {
 	ver, src := p.VerifHeader()
 	_, off := p.ChannelInfo()
 	sum := fmt.Sprintf("S v %d src %d seq %d off %d", ver, src, p.SequenceNumber(), off)
@@ -652,9 +658,197 @@ func (s *c15Script) run(reads []int, pseq uint32, pn int) string {
 	} else {
 		sum += " ts -1"
 	}
-	sum += " data " + c15Data(p.Data, true)
-	b := p.Bytes()
-	return sum + " B " + hexs(b) + " " + c15Decode(b, reads, pseq, pn)
+	return sum + " data " + c15Data(p.Data, true)
+}
+
+func c15ApplyOp(p *packets.Packet, op c15Op) error {
+	switch op.kind {
+	case "T":
+		p.SetTimestamp(&packets.PacketTimestamp{T: op.t, Rate: math.Float64frombits(op.rate)})
+	case "U":
+		p.ResetTimestamp()
+	case "C":
+		p.ClearData()
+	case "W":
+		switch op.width {
+		case 16:
+			d := make([]int16, len(op.data))
+			for k, v := range op.data {
+				d[k] = int16(v)
+			}
+			return p.NewData(d, op.dims)
+		case 32:
+			d := make([]int32, len(op.data))
+			for k, v := range op.data {
+				d[k] = int32(v)
+			}
+			return p.NewData(d, op.dims)
+		default:
+			d := make([]int64, len(op.data))
+			copy(d, op.data)
+			return p.NewData(d, op.dims)
+		}
+	}
+	return nil
+}
+
+// ---------------------------------------------------------------------------------------------
+// histories: ONE reused Packet (as cmd/bahama does) and filler copies of it produce several encodings
+// in sequence; every returned slice is kept WITHOUT copying and looked at only after the last step.
+// Each held encoding must still be the encoding of the packet it was made from.
+
+type c15HStep struct {
+	kind  string // "O" constructor op, "B" encode the packet, "F" encode a MakePretendPacket copy
+	op    c15Op
+	fseq  uint32
+	fchan int
+}
+
+type c15Hist struct {
+	ver      uint8
+	src, seq uint32
+	off      int
+	steps    []c15HStep
+}
+
+func (h *c15Hist) input() string {
+	var sb strings.Builder
+	fmt.Fprintf(&sb, "H N %d %d %d %d steps %d", h.ver, h.src, h.seq, h.off, len(h.steps))
+	for _, st := range h.steps {
+		switch st.kind {
+		case "B":
+			sb.WriteString(" B")
+		case "F":
+			fmt.Fprintf(&sb, " F %d %d", st.fseq, st.fchan)
+		default:
+			op := st.op
+			switch op.kind {
+			case "T":
+				fmt.Fprintf(&sb, " T %d %d", op.t, op.rate)
+			case "U", "C":
+				sb.WriteString(" " + op.kind)
+			case "W":
+				fmt.Fprintf(&sb, " W %d %s %s", op.width, ints(op.dims), ints(op.data))
+			}
+		}
+	}
+	return sb.String()
+}
+
+func (h *c15Hist) run() string {
+	type held struct {
+		sum  string
+		then string
+		b    []byte // NOT copied
+	}
+	var hs []held
+	stopped := ""
+	pan := c15Safe(func() string {
+		p := packets.NewPacket(h.ver, h.src, h.seq, h.off)
+		for i, st := range h.steps {
+			switch st.kind {
+			case "B":
+				sum := c15Summary(p)
+				b := p.Bytes()
+				hs = append(hs, held{sum, hexs(b), b})
+			case "F":
+				q := p.MakePretendPacket(st.fseq, st.fchan)
+				sum := c15Summary(q)
+				b := q.Bytes()
+				hs = append(hs, held{sum, hexs(b), b})
+			default:
+				if err := c15ApplyOp(p, st.op); err != nil {
+					stopped = fmt.Sprintf("Z %d", i)
+					return ""
+				}
+			}
+		}
+		return ""
+	})
+	if pan != "" {
+		return "X -1 " + pan
+	}
+	if stopped != "" {
+		return stopped
+	}
+	var sb strings.Builder
+	fmt.Fprintf(&sb, "HL %d", len(hs))
+	for _, x := range hs {
+		fmt.Fprintf(&sb, " %s T %s N %s %s", x.sum, x.then, hexs(x.b), c15Decode(x.b, nil, 1, 1))
+	}
+	return sb.String()
+}
+
+func c15GenHist(r *Rng) *c15Hist {
+	h := &c15Hist{ver: uint8(r.U64()), src: uint32(r.U64()), seq: uint32(r.U64()), off: r.Pick(0, 1, 16, 0x3000)}
+	if r.Chance(15) {
+		h.seq = uint32(r.Pick(0xffffffff, 0xfffffffd))
+	}
+	width := r.Pick(16, 16, 32, 64)
+	nchan := r.Pick(1, 2, 3, 4)
+	nfr := r.Pick(1, 2, 3, 4)
+	mkW := func(nf int) c15HStep {
+		op := c15Op{kind: "W", width: width, dims: []int16{int16(nchan)}}
+		if r.Chance(10) {
+			op.dims = []int16{int16(nchan), 1}
+		}
+		op.data = make([]int64, nf*nchan)
+		for i := range op.data {
+			v := int64(r.U64())
+			switch width {
+			case 16:
+				v = int64(int16(v))
+			case 32:
+				v = int64(int32(v))
+			}
+			op.data[i] = v
+		}
+		return c15HStep{kind: "O", op: op}
+	}
+	mkT := func() c15HStep {
+		return c15HStep{kind: "O", op: c15Op{kind: "T", t: r.U64() >> uint(r.Pick(0, 16, 40)), rate: math.Float64bits(r.pickRate())}}
+	}
+	if r.Chance(90) {
+		h.steps = append(h.steps, mkW(nfr))
+	}
+	if r.Chance(50) {
+		h.steps = append(h.steps, mkT())
+	}
+	nenc := r.Range(2, 6)
+	for k := 0; k < nenc; k++ {
+		if k > 0 || r.Chance(20) { // what a generator does between two packets
+			switch c := r.Intn(100); {
+			case c < 55: // next payload: same size, sometimes smaller, rarely larger
+				nf := nfr
+				if r.Chance(30) {
+					nf = r.Range(0, nfr)
+				} else if r.Chance(10) {
+					nf = nfr + r.Range(1, 3)
+				}
+				h.steps = append(h.steps, mkW(nf))
+				if r.Chance(50) {
+					h.steps = append(h.steps, mkT())
+				}
+			case c < 75:
+				h.steps = append(h.steps, mkT())
+			case c < 82:
+				h.steps = append(h.steps, c15HStep{kind: "O", op: c15Op{kind: "U"}})
+			case c < 87:
+				h.steps = append(h.steps, c15HStep{kind: "O", op: c15Op{kind: "C"}})
+			default: // nothing changes: the same packet is encoded twice
+			}
+		}
+		if r.Chance(25) {
+			h.steps = append(h.steps, c15HStep{kind: "F", fseq: uint32(r.U64()), fchan: r.Pick(nchan, nchan, 1, 2, 7)})
+		} else {
+			h.steps = append(h.steps, c15HStep{kind: "B"})
+		}
+	}
+	return h
+}
+
+func (r *Rng) pickRate() float64 {
+	return []float64{1e9, 256e6, 1e8, 1.25e8, 1e6}[r.Intn(5)]
 }
 
 func c15GenScript(r *Rng, tier string) (*c15Script, int, int) {
@@ -766,7 +960,7 @@ func c15GenScript(r *Rng, tier string) (*c15Script, int, int) {
 // ---------------------------------------------------------------------------------------------
 // fixed regression cases
 
-const c15NHot = 24
+const c15NHot = 25
 
 func c15Hot(idx int) (string, func() string, bool) {
 	fmtTLV := func(f string) []byte { return c15TLV(0x21, []byte(f)) }
@@ -852,6 +1046,21 @@ func c15Hot(idx int) (string, func() string, bool) {
 			d[i] = 1
 		}
 		return scr(&c15Script{ver: 1, src: 2, seq: 3, ops: []c15Op{{kind: "T", t: 5, rate: math.Float64bits(1e9)}, wop(16, d, 4)}})
+	case 24: // one reused Packet, five encodings held, then a filler copy encoded (a generator's send queue)
+		h := &c15Hist{ver: 10, src: 77, seq: 1000, off: 16}
+		for k := 0; k < 5; k++ {
+			d := make([]int64, 12)
+			for i := range d {
+				d[i] = int64(1000*k + i)
+			}
+			h.steps = append(h.steps,
+				c15HStep{kind: "O", op: c15Op{kind: "W", width: 16, dims: []int16{4}, data: d}},
+				c15HStep{kind: "O", op: c15Op{kind: "T", t: uint64(5000 + 100*k), rate: math.Float64bits(1e8)}},
+				c15HStep{kind: "B"})
+		}
+		h.steps = append(h.steps, c15HStep{kind: "F", fseq: 9999, fchan: 4})
+		in := fmt.Sprintf("%s R %s PS %d PN %d", h.input(), ints([]int{}), 1, 1)
+		return in, h.run, true
 	case 23: // ClearData then Bytes
 		return scr(&c15Script{ver: 1, src: 2, seq: 3, ops: []c15Op{wop(32, []int16{2}, 4), {kind: "C"}}})
 	}
@@ -867,6 +1076,11 @@ func c15Gen(r *Rng, tier string, idx int) (string, func() string) {
 		}
 	}
 	pseq := uint32(r.U64())
+	if idx%12 == 7 { // histories take a fixed share of the case numbers; all other cases are unchanged
+		h := c15GenHist(r)
+		in := fmt.Sprintf("%s R %s PS %d PN %d", h.input(), ints([]int{}), 1, 1)
+		return in, h.run
+	}
 	switch c := r.Intn(100); {
 	case c < 48:
 		b, nfr, nchan := c15Structured(r, tier)
